@@ -101,7 +101,18 @@ def mutate(p, rng):
             elif kind == "bad-expr":
                 m["sources"] = (m.get("sources") or []) + [rng.choice(["$(1+).c", "${nosuch.c", "$(foo(1)).c"])]
             elif kind == "empty-name":
-                m[rng.choice(["selects", "depends", "uses"])] = [""]
+                # empty names, an optional marker without a name, removal entries without a name — alone and next to each other
+                key = rng.choice(["selects", "depends", "uses"])
+                m[key] = rng.choice([[""], [""], ["?"], ["-"], ["?", "-x"], ["-x", "?"], ["?", "-"], ["?-"], ["-?"], ["?", "?"]])
+                if rng.random() < 0.3:
+                    # one half from the defaults of the document, the other in the module
+                    for docs in files.values():
+                        for d in docs:
+                            if isinstance(d, dict) and any(x is m for x in (d.get("modules") or []) + (d.get("apps") or []) if isinstance(x, dict)):
+                                dk = "app" if any(x is m for x in (d.get("apps") or [])) else "module"
+                                if isinstance(d.get("defaults"), dict) or "defaults" not in d:
+                                    d.setdefault("defaults", {}).setdefault(dk, {})[key] = ["?"]
+                                    m[key] = ["-x"]
             elif kind == "notify-string":
                 m.setdefault("env", {}).setdefault(rng.choice(["export", "global"]), {})["notify"] = "x"
             elif kind == "builddep-nofiles":
